@@ -6,6 +6,7 @@ import (
 	"fmt"
 	"go/ast"
 	"go/constant"
+	"go/token"
 	"go/types"
 	"strings"
 
@@ -207,7 +208,7 @@ func (se *specEnv) eval(x SExpr) (specVal, error) {
 
 func floatLitSMT(s string) string {
 	// decimal literal, possibly with exponent
-	v := constant.MakeFromLiteral(s, 0, 0)
+	v := constant.MakeFromLiteral(s, token.FLOAT, 0)
 	if v.Kind() == constant.Unknown {
 		return s
 	}
@@ -332,7 +333,7 @@ func (se *specEnv) evalIdent(name string) (specVal, error) {
 	if v, ok := se.binds[name]; ok {
 		if v.cell {
 			t := derefType(v.typ)
-			rv := se.e.loadPtr(se.cur, v.t, t)
+			rv := se.purify(se.e.loadPtr(se.cur, v.t, t))
 			se.typed(rv, t)
 			return specVal{t: rv, typ: t}, nil
 		}
@@ -499,7 +500,7 @@ func (se *specEnv) evalSel(n *SSel) (specVal, error) {
 			return specVal{t: App(SInt, "+", xv.t, IntLit(int64(slot))), typ: types.NewPointer(ft)}, nil
 		}
 		h := e.lookup(se.cur, heapFieldName(e.tr, pt.Elem(), idx), ArraySort(SInt, e.tr.sortOf(ft)))
-		rv := Select(h, xv.t)
+		rv := se.purify(Select(h, xv.t))
 		se.typed(rv, ft)
 		return specVal{t: rv, typ: ft}, nil
 	}
@@ -653,7 +654,8 @@ func (se *specEnv) evalCall(n *SCall) (specVal, error) {
 		if err != nil {
 			return specVal{}, err
 		}
-		return specVal{t: App(SBool, "is_int", ToReal(as[0].t))}, nil
+		xr := ToReal(as[0].t)
+		return specVal{t: Eq(xr, App(SReal, "to_real", App(SInt, "to_int", xr)))}, nil
 	case "rnd":
 		as, err := args()
 		if err != nil {
@@ -1085,4 +1087,47 @@ var builtinGhosts = map[string]string{
 	"timerDelay":   ArraySort(SInt, SInt),
 	"env":          ArraySort(SString, SString),
 	"envset":       ArraySort(SString, SBool),
+}
+
+// purify names a scalar heap read by a constant with a defining equation: arithmetic over named
+// constants is decided far faster than arithmetic over array-select terms (z3 stalls on
+// mixed integer/real goals whose atoms contain selects). Reads under a quantifier keep their term.
+func (se *specEnv) purify(t Term) Term { return se.e.purify(t) }
+
+func (e *Enc) purify(t Term) Term {
+	if strings.Contains(t.S, "q_") || (t.Sort != SInt && t.Sort != SReal && t.Sort != SBool) || !strings.HasPrefix(t.S, "(select ") {
+		return t
+	}
+	if c, ok := e.purified[t.S]; ok {
+		return c
+	}
+	e.freshCounter++
+	name := fmt.Sprintf("rd!%d", e.freshCounter)
+	c := e.sc.Declare(name, t.Sort)
+	// a read of an unmodified heap version is a free constant unless something else mentions that
+	// heap version: key the equation by the heap name so that slices can leave it out
+	inner := strings.TrimPrefix(t.S, "(select ")
+	if k := strings.IndexByte(inner, ' '); k > 0 && !strings.HasPrefix(inner, "(") {
+		e.sc.AssertKeyed(inner[:k]+" ", Eq(c, t))
+	} else {
+		e.sc.AssertDef(name, Eq(c, t))
+	}
+	e.purified[t.S] = c
+	return c
+}
+
+// debugValue returns the SSA value currently bound to a source-level local (by DebugRef).
+func (se *specEnv) debugValue(name string) (ssa.Value, bool) {
+	e := se.e
+	se.debugName(name) // builds the index
+	var pick ssa.Value
+	for _, d := range e.debugNames[name] {
+		if d.IsAddr {
+			continue
+		}
+		if _, ok := e.vals[d.X]; ok {
+			pick = d.X
+		}
+	}
+	return pick, pick != nil
 }
